@@ -20,6 +20,7 @@ import (
 	"github.com/bronlabs/bron-crypto/pkg/mpc/sharing/accessstructures/cnf"
 
 	"verifmc/engine"
+	"verifmc/memedit"
 	"verifmc/proto"
 	"verifmc/schednet"
 )
@@ -95,6 +96,7 @@ func faultBody(c *proto.Case, deviators []proto.ID) func(*engine.X) {
 		net := schednet.New(c.IDs...)
 		applied := 0
 		note := ""
+		var believed *memedit.Result
 		otherSender := func(m *schednet.Msg) []byte {
 			var best *schednet.Msg
 			for _, t := range h.trace {
@@ -199,6 +201,24 @@ func faultBody(c *proto.Case, deviators []proto.ID) func(*engine.X) {
 			if !ok {
 				note = why
 				return nil
+			}
+			if f.Op == "believe" {
+				// OnSend runs on the sender's own thread (Send is not a scheduling point): its memory is quiescent
+				if believed == nil {
+					old, nw := leafData(m.Payload, f.Path), leafData(out, f.Path)
+					r := memedit.Replace(net.Roots[f.From], old, nw)
+					believed = &r
+					if dbg := os.Getenv("C04_DEBUG"); dbg != "" {
+						if fh, err := os.OpenFile(dbg, os.O_APPEND|os.O_CREATE|os.O_WRONLY, 0o644); err == nil {
+							fmt.Fprintf(fh, "%s | %s | replaced=%d readonly=%d visited=%d\n", c.Name, f, r.Replaced, r.Unpatchable, r.Visited)
+							fh.Close()
+						}
+					}
+				}
+				if believed.Replaced == 0 {
+					note = fmt.Sprintf("the value does not occur as bytes in the sender's memory (visited %d objects, %d read-only occurrences)", believed.Visited, believed.Unpatchable)
+					return nil // the plain alteration is the flip-mid fault
+				}
 			}
 			applied++
 			return [][]byte{out}
